@@ -4,6 +4,7 @@
 # removes the worktree and its scratch output again.  Exit status: 0 if at least one check reported a VIOLATION.
 set -u
 CHANGE="$1"; shift
+case "$CHANGE" in revert:*) ;; /*) ;; *) CHANGE="$(pwd)/$CHANGE" ;; esac
 SCR=$(mktemp -d /var/tmp/verif-mut.XXXXXX)
 WT="$SCR/wt"
 cleanup() { git -C /repo worktree remove --force "$WT" >/dev/null 2>&1; rm -rf "$SCR"; git -C /repo worktree prune; }
